@@ -27,7 +27,8 @@ MANIFEST = {
             "event through sys.addaudithook, the sandbox (inputs, outputs, cwd, template dirs) is snapshotted before and after "
             "each non-writing mode, both on a fresh and on a populated read-only output tree; listed outputs are compared with "
             "created files; each DSDL and user template file is perturbed and generation repeated to decide influence, and "
-            "built-in template/support files opened during the real run must be listed.",
+            "built-in template/support files opened during the real run must be listed."
+            " Inputs include lookup types reachable only through the request/response of a service (directly, in arrays, transitively) and user template directories with same-named partials in sub-folders.",
     "note": "Order and duplicates in lists are not judged; listing more inputs than necessary is allowed; combinations the CLI refuses are skipped and counted.",
 }
 
